@@ -30,19 +30,34 @@ func hasAccept
   ensures result <==> exists(i, 0, len(states), states[i].kind == 2)
   loop 1 invariant forall(k, 0, $i, states[k].kind != 2)
 
+// A run's rows are a cons list (head = newest row, prev = the row before). chainHas / chainFirstIdx / chainLastIdx walk it
+// exactly as far as it goes: m marks the frames whose label matches, i is the row number of frame f.
+recfunc chainHas((f Int) (prev (Array Int Int)) (m (Array Int Bool))) Bool := (ite (= f 0) false (or (select m f) (@chainHas (select prev f) prev m)))
+recfunc chainFirstIdx((f Int) (i Int) (prev (Array Int Int)) (m (Array Int Bool))) Int := (ite (= f 0) (- 1) (ite (@chainHas (select prev f) prev m) (@chainFirstIdx (select prev f) (- i 1) prev m) i))
+recfunc chainLastIdx((f Int) (i Int) (prev (Array Int Int)) (m (Array Int Bool))) Int := (ite (= f 0) (- 1) (ite (select m f) i (@chainLastIdx (select prev f) (- i 1) prev m)))
+
 func labelMatches
   props C15
+  option pure
   ensures same-symbol: lbl == symbol ==> result
 
 func seqOfLabel
   props C15
+  requires c != nil
   ensures no-label: label == "" ==> result == -1
+  ensures skip-to-first-names-the-oldest-row-with-that-label: label != "" && first ==> result == ite(chainHas(c.head, heapof(frame.prev), arrayof(g, c.head, labelMatches(g.label, label, subsets))) && chainFirstIdx(c.head, c.nrows - 1, heapof(frame.prev), arrayof(g, c.head, labelMatches(g.label, label, subsets))) >= 0, c.startSeq + chainFirstIdx(c.head, c.nrows - 1, heapof(frame.prev), arrayof(g, c.head, labelMatches(g.label, label, subsets))), -1)
+  ensures skip-to-last-names-the-newest-row-with-that-label: label != "" && !first ==> result == ite(chainHas(c.head, heapof(frame.prev), arrayof(g, c.head, labelMatches(g.label, label, subsets))), c.startSeq + chainLastIdx(c.head, c.nrows - 1, heapof(frame.prev), arrayof(g, c.head, labelMatches(g.label, label, subsets))), -1)
+  loop 1 invariant first ==> ite(chainHas(f, heapof(frame.prev), arrayof(g, c.head, labelMatches(g.label, label, subsets))), chainFirstIdx(f, i, heapof(frame.prev), arrayof(g, c.head, labelMatches(g.label, label, subsets))), idx) == ite(chainHas(c.head, heapof(frame.prev), arrayof(g, c.head, labelMatches(g.label, label, subsets))), chainFirstIdx(c.head, c.nrows - 1, heapof(frame.prev), arrayof(g, c.head, labelMatches(g.label, label, subsets))), -1)
+  loop 1 invariant !first ==> idx == -1 && (chainHas(c.head, heapof(frame.prev), arrayof(g, c.head, labelMatches(g.label, label, subsets))) <==> chainHas(f, heapof(frame.prev), arrayof(g, c.head, labelMatches(g.label, label, subsets)))) && (chainHas(f, heapof(frame.prev), arrayof(g, c.head, labelMatches(g.label, label, subsets))) ==> chainLastIdx(f, i, heapof(frame.prev), arrayof(g, c.head, labelMatches(g.label, label, subsets))) == chainLastIdx(c.head, c.nrows - 1, heapof(frame.prev), arrayof(g, c.head, labelMatches(g.label, label, subsets))))
 
 func (*Engine).skipTo
   props C15
+  requires c != nil
   ensures past-last-row-shares-no-row: e.spec.Skip == 0 ==> result == c.startSeq + c.nrows
   ensures next-row: e.spec.Skip == 1 ==> result == c.startSeq + 1
-  ensures to-symbol-or-past-last: e.spec.Skip >= 2 && e.spec.Skip <= 4 ==> result == c.startSeq + c.nrows || result >= 0
+  observe at := seqOfLabel
+  before seqOfLabel the-label-is-searched-in-this-match-first-only-for-skip-to-first: $arg0 == c && $arg1 == e.spec.SkipSymbol && ($arg2 <==> e.spec.Skip == 2) && $arg3 == e.subsets
+  ensures to-symbol-resumes-after-the-labelled-row-else-past-last: e.spec.Skip >= 2 && e.spec.Skip <= 4 ==> result == ite($at >= 0, $at + 1, c.startSeq + c.nrows)
   ensures unknown-mode-past-last: e.spec.Skip > 4 || e.spec.Skip < 0 ==> result == c.startSeq + c.nrows
 
 func (*Engine).pruneSurvivors
@@ -58,6 +73,7 @@ extern (*Engine).project
 
 func (*Engine).emitOne
   props C15
+  requires c != nil
   modifies p.matchNo, c.matchNo, p.nextStart, *survivors
   ensures match-number-counts-up: p.matchNo == old(p.matchNo) + 1 && c.matchNo == p.matchNo
   ensures survivors-respect-skip: forall(i, 0, len(*survivors), (*survivors)[i].startSeq >= p.nextStart)
